@@ -719,3 +719,230 @@ Proof.
   split. { eexists. split; [vm_compute; reflexivity|]. vm_compute. reflexivity. }
   repeat split; vm_compute; reflexivity.
 Qed.
+
+(* ======================================================================== *)
+(* THE JSON READERS, FROM TEXT.  model/JsonKeyset.v: what                     *)
+(* keyset.NewJSONReader(r).Read() / ReadEncrypted() - protojson.Unmarshal    *)
+(* into tinkpb.Keyset / tinkpb.EncryptedKeyset with default options, nothing  *)
+(* before and nothing after (keyset/json_io.go) - accept and produce: the     *)
+(* tokenizer and value parser of model/Json.v (C09) with a number oracle that *)
+(* keeps the literal, then the two schemas (names in lowerCamelCase or        *)
+(* snake_case, unknown and duplicate fields refused, null = unset, uint32 as  *)
+(* number or string, enums by name or int32 number, bytes in either base64    *)
+(* alphabet with padding by length, objects / arrays of objects).             *)
+(* model/JsonKeysetC14.v composes it with the readers over proto keysets:     *)
+(*   xread_json            insecurecleartextkeyset.Read(NewJSONReader(r))     *)
+(*   xread_json_no_secrets keyset.ReadWithNoSecrets(NewJSONReader(r))         *)
+(*   xread_json_encrypted  keyset.ReadWithAssociatedData(NewJSONReader(r), kek, ad) *)
+(* (imports here, after the statements above: Json / JsonKeyset reuse names   *)
+(* such as memN and utf8_valid)                                               *)
+(* ======================================================================== *)
+From Tink Require Import Base64url Jwt Json JsonLexProofs JsonProofs JsonKeyset JsonKeysetProofs JsonKeysetC14 JsonKeysetC14Proofs.
+
+(* For ALL byte strings the JSON readers never panic ... *)
+Theorem C14_json_readers_never_panic :
+  forall L : stdlib,
+    (forall s, xread_json L s <> Panic)
+    /\ (forall s, xread_json_no_secrets L s <> Panic)
+    /\ (forall kek s ad, xread_json_encrypted L kek s ad <> Panic).
+Proof.
+  intros L. split; [exact (xread_json_np L)|]. split; [exact (xread_json_no_secrets_np L)|exact (xread_json_encrypted_np L)].
+Qed.
+Print Assumptions C14_json_readers_never_panic.
+
+(* ... and what they return is an error or a well-formed handle: an accepted
+   text is the text of a message protojson yields, that message is a
+   well-formed keyset, and the handle holds its keys in order (the encrypted
+   reader: the decrypted bytes decode, in BINARY, to such a keyset) *)
+Theorem C14_json_accepted_handle_wellformed :
+  forall L : stdlib,
+    (forall s h, xread_json L s = Ok h ->
+       exists jks, keyset_of_json_text s = Some jks /\ xaccepted_as (keyset_of_j jks) h)
+    /\ (forall s h, xread_json_no_secrets L s = Ok h ->
+       exists jks, keyset_of_json_text s = Some jks /\ has_secrets (keyset_of_j jks) = false
+         /\ xaccepted_as (keyset_of_j jks) h /\ xhandle_has_secrets h = false)
+    /\ (forall kek s ad h, xread_json_encrypted L kek s ad = Ok h ->
+       exists e pt k, encrypted_of_json_text s = Some e /\ kek (je_ct e) ad = Some pt
+         /\ decode_keyset pt = Some k /\ xaccepted_as k h).
+Proof.
+  intros L. split; [exact (xread_json_wf L)|]. split; [exact (xread_json_no_secrets_wf L)|exact (xread_json_encrypted_wf L)].
+Qed.
+Print Assumptions C14_json_accepted_handle_wellformed.
+
+(* a text protojson refuses, and a text whose message is not a well-formed keyset: an error on every path *)
+Theorem C14_json_refused_or_malformed_text_is_an_error :
+  forall L : stdlib,
+    (forall s, keyset_of_json_text s = None -> xread_json L s = Err /\ xread_json_no_secrets L s = Err)
+    /\ (forall s jks, keyset_of_json_text s = Some jks -> ~ wf_keyset (keyset_of_j jks) ->
+          xread_json L s = Err /\ xread_json_no_secrets L s = Err)
+    /\ (forall kek s ad, encrypted_of_json_text s = None -> xread_json_encrypted L kek s ad = Err).
+Proof.
+  intros L. split; [exact (xread_json_refused L)|]. split; [exact (xread_json_malformed L)|exact (xread_json_encrypted_refused L)].
+Qed.
+Print Assumptions C14_json_refused_or_malformed_text_is_an_error.
+
+(* ---- what the text reader refuses, each for ALL texts ---- *)
+
+(* the JSON layer: text that is not valid UTF-8; the empty or blank text; a top
+   level that is not an object; a member name repeated in one object at any depth *)
+Theorem C14_json_text_layer_refusals :
+  forall s,
+    (Jwt.utf8_valid s = false -> keyset_of_json_text s = None /\ encrypted_of_json_text s = None)
+    /\ (all_ws s = true -> keyset_of_json_text s = None /\ encrypted_of_json_text s = None)
+    /\ (forall c t, skip_ws s = c :: t -> c <> 123 -> keyset_of_json_text s = None /\ encrypted_of_json_text s = None)
+    /\ (forall v, lex num_keep s = Some (toks v) -> nodup_names v = false ->
+          keyset_of_json_text s = None /\ encrypted_of_json_text s = None).
+Proof. exact keyset_text_json_refusals. Qed.
+Print Assumptions C14_json_text_layer_refusals.
+
+(* trailing data after an accepted text; JSON whitespace around it changes nothing *)
+Theorem C14_json_trailing_data_refused :
+  forall s c t,
+    (forall ks, keyset_of_json_text s = Some ks -> is_ws c = false -> keyset_of_json_text (s ++ c :: t) = None)
+    /\ (forall e, encrypted_of_json_text s = Some e -> is_ws c = false -> encrypted_of_json_text (s ++ c :: t) = None).
+Proof.
+  intros s c t. split; [intros ks; apply keyset_text_trailing_data|intros e; apply encrypted_text_trailing_data].
+Qed.
+Print Assumptions C14_json_trailing_data_refused.
+
+Theorem C14_json_whitespace_around_the_text :
+  forall w s, all_ws w = true ->
+    keyset_of_json_text (w ++ s) = keyset_of_json_text s /\ keyset_of_json_text (s ++ w) = keyset_of_json_text s.
+Proof. exact keyset_text_whitespace. Qed.
+Print Assumptions C14_json_whitespace_around_the_text.
+
+(* an object is read against a field table EXACTLY when every member names a
+   field (JSON name or proto name) and no field is named twice - a null member
+   counts; the fields set are the non-null members *)
+Theorem C14_json_object_members_exactly :
+  forall tab f seen l,
+    resolve tab f seen = Some l <->
+    exists nums, member_numbers tab f = Some nums /\ distinct_from seen nums = true /\ l = set_members nums f.
+Proof. exact resolve_spec. Qed.
+Print Assumptions C14_json_object_members_exactly.
+
+(* an unknown member, or two members for one field (same spelling, or keyId and
+   key_id), in the keyset object, in a key object, in a key data object *)
+Theorem C14_json_unknown_or_duplicate_field_refused :
+  (forall f,
+     (forall k v, In (k, v) f -> field_number tab_keyset k = None -> keyset_of_fields f = None)
+     /\ (forall f1 k1 v1 f2 k2 v2 f3 n, f = f1 ++ (k1, v1) :: f2 ++ (k2, v2) :: f3 ->
+           field_number tab_keyset k1 = Some n -> field_number tab_keyset k2 = Some n -> keyset_of_fields f = None))
+  /\ (forall f,
+     (forall k v, In (k, v) f -> field_number tab_key k = None -> key_of_fields f = None)
+     /\ (forall f1 k1 v1 f2 k2 v2 f3 n, f = f1 ++ (k1, v1) :: f2 ++ (k2, v2) :: f3 ->
+           field_number tab_key k1 = Some n -> field_number tab_key k2 = Some n -> key_of_fields f = None))
+  /\ (forall f,
+     (forall k v, In (k, v) f -> field_number tab_keydata k = None -> keydata_of_fields f = None)
+     /\ (forall f1 k1 v1 f2 k2 v2 f3 n, f = f1 ++ (k1, v1) :: f2 ++ (k2, v2) :: f3 ->
+           field_number tab_keydata k1 = Some n -> field_number tab_keydata k2 = Some n -> keydata_of_fields f = None)).
+Proof.
+  split; [exact keyset_unknown_or_duplicate_field|]. split; [exact key_unknown_or_duplicate_field|exact keydata_unknown_or_duplicate_field].
+Qed.
+Print Assumptions C14_json_unknown_or_duplicate_field_refused.
+
+(* a refusal inside refuses the whole: an element of "key" that is not an
+   accepted key object (null, a number, ...), a "keyData" that is not an
+   accepted key data object *)
+Theorem C14_json_bad_nested_object_refused :
+  (forall f l es e, resolve tab_keyset f [] = Some l -> getf 2 l = Some (JArr es) -> In e es ->
+     match e with JObj kf => key_of_fields kf = None | _ => True end -> keyset_of_fields f = None)
+  /\ (forall f l j, resolve tab_key f [] = Some l -> getf 1 l = Some j ->
+     match j with JObj df => keydata_of_fields df = None | _ => True end -> key_of_fields f = None).
+Proof. split; [exact keyset_bad_key_refused|exact key_bad_keydata_refused]. Qed.
+Print Assumptions C14_json_bad_nested_object_refused.
+
+(* wrong JSON type, uint32 out of range, unknown enum name, base64 that does not decode *)
+Theorem C14_json_bad_scalar_refused :
+  (forall f l j, resolve tab_keyset f [] = Some l -> getf 1 l = Some j -> u32_of_json j = None -> keyset_of_fields f = None)
+  /\ (forall f l, resolve tab_key f [] = Some l ->
+        (exists j, getf 3 l = Some j /\ u32_of_json j = None)
+        \/ (exists j, getf 2 l = Some j /\ enum_of_json status_names j = None)
+        \/ (exists j, getf 4 l = Some j /\ enum_of_json prefix_names j = None) -> key_of_fields f = None)
+  /\ (forall f l, resolve tab_keydata f [] = Some l ->
+        (exists j, getf 1 l = Some j /\ forall s, j <> JStr s)
+        \/ (exists j, getf 2 l = Some j /\ forall s, j = JStr s -> pj_bytes s = None)
+        \/ (exists j, getf 3 l = Some j /\ enum_of_json material_names j = None) -> keydata_of_fields f = None)
+  /\ (forall j, match j with JNull | JBool _ | JArr _ | JObj _ => True | _ => False end -> u32_of_json j = None)
+  /\ (forall t, (t < 0 \/ 4294967296 <= t)%Z -> u32_of_json (JNum t []) = None)
+  /\ (forall names s, name_lookup names s = None -> enum_of_json names (JStr s) = None)
+  /\ (forall s1 c s2, gval (existsb (fun c => (c =? 45) || (c =? 95)) (s1 ++ c :: s2)) c = None ->
+        is_nl c = false -> c <> 61 -> (forall x, In x s1 -> x <> 61) -> pj_bytes (s1 ++ c :: s2) = None).
+Proof.
+  split; [exact keyset_bad_primary_refused|]. split; [exact key_bad_scalar_refused|]. split; [exact keydata_bad_scalar_refused|].
+  split; [exact u32_of_json_wrong_type|]. split; [exact u32_of_json_out_of_range|].
+  split; [exact enum_of_json_unknown_name|exact pj_bytes_bad_char].
+Qed.
+Print Assumptions C14_json_bad_scalar_refused.
+
+(* the printer's text of every message with uint32-sized numbers, UTF-8 type
+   URLs and byte-string values is read back as that message *)
+Theorem C14_json_print_then_read :
+  (forall ks, keyset_ok ks = true -> keyset_of_json_text (json_text_of_keyset ks) = Some ks)
+  /\ (forall e, encrypted_ok e = true -> encrypted_of_json_text (json_text_of_encrypted e) = Some e).
+Proof. split; [exact keyset_text_roundtrip|exact encrypted_text_roundtrip]. Qed.
+Print Assumptions C14_json_print_then_read.
+
+(* Non-vacuity, concrete texts: the keyset of C14_nonvacuous (AES-GCM, TINK, id 5)
+   in two spellings protojson accepts, read into the same well-formed handle as
+   the binary reader; the oddities of the uint32 rule; refusals. *)
+Section JsonKeysetExample.
+  Import JsonStrings.
+  Let v64 : bytes := b64_encode ex_aes_value.
+  Let camel : bytes :=
+    bs "{""primaryKeyId"":5,""key"":[{""keyData"":{""typeUrl"":""type.googleapis.com/google.crypto.tink.AesGcmKey"",""value"":"""
+    ++ v64 ++ bs """,""keyMaterialType"":""SYMMETRIC""},""status"":""ENABLED"",""keyId"":5,""outputPrefixType"":""TINK""}]}".
+  Let snake : bytes :=
+    bs " { ""key"" : [ {""output_prefix_type"":1.0, ""key_id"":""5"", ""status"":1e0, ""key_data"":{""key_material_type"":1,""value"":"""
+    ++ v64 ++ bs """, ""type_url"":""type.googleapis.com\/google.crypto.tink.AesGcmKey""}} ], ""primary_key_id"" : ""5 ignored"" } ".
+  Let the_keyset := mkJKS 5 [mkJK (Some (mkJD u_aes_gcm ex_aes_value km_symmetric)) 1 5 1].
+  Let h0 := match xread_json std0 camel with Ok h => h | _ => [] end.
+  Let field (name value : bytes) : bytes := bs "{""key"":[{" ++ name ++ bs ":" ++ value ++ bs "}]}".
+
+  Example C14_json_nonvacuous :
+    keyset_of_json_text camel = Some the_keyset
+    /\ keyset_of_json_text snake = Some the_keyset
+    /\ keyset_of_json_text (json_text_of_keyset the_keyset) = Some the_keyset
+    /\ xread_json std0 camel = Ok h0 /\ xread_json std0 snake = Ok h0 /\ h0 <> []
+    /\ map xid h0 = [5] /\ wf_xhandle h0
+    /\ xread_json_no_secrets std0 camel = Err          (* a symmetric key is secret material *)
+    (* one fault each *)
+    /\ keyset_of_json_text (bs "{""primaryKeyId"":5,""extra"":null}") = None
+    /\ keyset_of_json_text (bs "{""primaryKeyId"":5,""primary_key_id"":5}") = None
+    /\ keyset_of_json_text (bs "{""primaryKeyId"":null,""primaryKeyId"":5}") = None
+    /\ keyset_of_json_text (bs "{""primaryKeyId"":4294967296}") = None
+    /\ keyset_of_json_text (bs "{""primaryKeyId"":-1}") = None
+    /\ keyset_of_json_text (bs "{""primaryKeyId"":1.5}") = None
+    /\ keyset_of_json_text (bs "{""primaryKeyId"":"" 5""}") = None
+    /\ keyset_of_json_text (bs "{""primaryKeyId"":true}") = None
+    /\ keyset_of_json_text (field (bs """status""") (bs """enabled""")) = None
+    /\ keyset_of_json_text (field (bs """status""") (bs """1""")) = None
+    /\ keyset_of_json_text (field (bs """status""") (bs "2147483648")) = None
+    /\ keyset_of_json_text (field (bs """keyData""") (bs "{""value"":""@@@@""}")) = None
+    /\ keyset_of_json_text (field (bs """keyData""") (bs "{""value"":""AA=""}")) = None
+    /\ keyset_of_json_text (field (bs """keyData""") (bs "[]")) = None
+    /\ keyset_of_json_text (bs "{""key"":[null]}") = None
+    /\ keyset_of_json_text (camel ++ bs "x") = None
+    (* accepted: 4294967295, -0, 1e2, a string whose number is followed by a delimiter and anything,
+       an enum number outside the enum (-1 is kept as 2^32-1), null and absent fields *)
+    /\ option_map jks_primary (keyset_of_json_text (bs "{""primaryKeyId"":4294967295}")) = Some 4294967295
+    /\ option_map jks_primary (keyset_of_json_text (bs "{""primaryKeyId"":-0}")) = Some 0
+    /\ option_map jks_primary (keyset_of_json_text (bs "{""primaryKeyId"":1e2}")) = Some 100
+    /\ option_map jks_primary (keyset_of_json_text (bs "{""primaryKeyId"":""12 13""}")) = Some 12
+    /\ keyset_of_json_text (field (bs """status""") (bs "-1")) = Some (mkJKS 0 [mkJK None 4294967295 0 0])
+    /\ keyset_of_json_text (bs "{""key"":null,""primaryKeyId"":null}") = Some (mkJKS 0 [])
+    /\ keyset_of_json_text (field (bs """keyData""") (bs "{""value"":""-_8=""}")) = Some (mkJKS 0 [mkJK (Some (mkJD [] [251; 255] 0)) 0 0 0])
+    /\ keyset_of_json_text (field (bs """keyData""") (bs "{""value"":""+/8""}")) = Some (mkJKS 0 [mkJK (Some (mkJD [] [251; 255] 0)) 0 0 0])
+    (* the encrypted form *)
+    /\ encrypted_of_json_text (bs "{""encryptedKeyset"":""AAEC"",""keysetInfo"":{""primaryKeyId"":5,""keyInfo"":[{""typeUrl"":""t"",""status"":""ENABLED"",""keyId"":5,""outputPrefixType"":""TINK""}]}}")
+       = Some (mkJE [0; 1; 2] (Some (mkJInfo 5 [mkJI [116] 1 5 1])))
+    /\ encrypted_of_json_text (bs "{""primaryKeyId"":5}") = None.
+  Proof.
+    assert (R : xread_json std0 camel = Ok h0) by (vm_compute; reflexivity).
+    split; [vm_compute; reflexivity|]. split; [vm_compute; reflexivity|]. split; [vm_compute; reflexivity|].
+    split; [exact R|]. split; [vm_compute; reflexivity|]. split; [vm_compute; discriminate|].
+    split; [vm_compute; reflexivity|].
+    split; [apply (xread_json_wf std0) in R; destruct R as [jks [_ [_ [W _]]]]; exact W|].
+    repeat split; vm_compute; reflexivity.
+  Qed.
+End JsonKeysetExample.
